@@ -53,6 +53,11 @@ def tasks(tier, seed):
     rng = random.Random(seed + 303)
     shs = [s for s in shapes.shape_set(tier, seed, quick_n=30, thorough_n=160) if not lpchecks.is_wide(s)]
     out = []
+    # the corner shapes with two-digit identifiers: criteria without auxiliary load-balancing variables, no -pc / -stab
+    for I in [s for s in shapes.corner_shapes() if lpchecks.is_wide(s)]:
+        for flags in ([[], ['twopl']] if I.lprefs is not None else [[]]):
+            for c in (('maxsize', []), ('minsize', []), ('gre', []), ('gen', []), ('mincost', []), ('mincost', [1, 1]), ('minsqcost', [0, 1])):
+                out.append({'prop': ID, 'shape': lpchecks.shape_data(I), 'flags': flags, 'seq': [c], 'forms': ['opt'], 'wf': True})
     for i, I in enumerate(shs):
         for flags in lpchecks.flag_sets_for(I):
             av = arg_variants(I, tier, rng)
